@@ -522,6 +522,12 @@ def run(ctx, col: Collector):
                             col.unk('C08-partial', cons, f'cannot compute the character set of the tokens passed to {c.func.id}()', node=_N(g), file=g.file)
                             continue
                         extra = set(cs) - allowed
+                        # characters the converter accepts in some positions only (sign, exponent marker): their placement cannot be read off a character set
+                        positional = {'+', '-'} | ({'e', 'E'} if c.func.id == 'float' else set())
+                        if extra and extra <= positional:
+                            col.unk('C08-partial', cons, f'the tokens passed to {c.func.id}() may contain {sorted(extra)}; whether they can only stand where {c.func.id}() '
+                                    f'accepts them is not decided by this rule', node=_N(g), file=g.file)
+                            continue
                         col.check(not extra, 'C08-partial', cons, f'{c.func.id}() only sees digits (and a decimal point)',
                                   f'the rule at {g.file}:{g.line} can hand {c.func.id}() a token containing {sorted(extra)}; the action picks int() unless the text '
                                   f'contains a dot, so e.g. an exponent form reaches int() and raises ValueError inside the parse action', node=_N(g), file=g.file)
@@ -538,6 +544,65 @@ def run(ctx, col: Collector):
                                     col.ok('C08-partial', cons2, f'int() sees at most {max(ln)} characters', node=_N(g), file=g.file)
         col.floor('C08-partial', 'numeric conversions in parse actions', n, 1)
     guarded(col, 'C08-partial', 'conversions', conversions)
+
+    def hashing():
+        """set(xs) / frozenset(xs) / {x for x in xs} / {x: .. for x in xs} need hashable elements: when the collection's declared element type includes a class whose
+        instances are unhashable, TypeError escapes for the inputs that put such an element there."""
+        from .common import unhashable_classes, annotation_element_classes
+        unh = unhashable_classes(idx)
+        # attribute name -> element classes per declaring class
+        attr_elems: Dict[str, List[Tuple[str, Set[str]]]] = {}
+        for ci in idx.classes.values():
+            if not isinstance(ci.node, ast.ClassDef):
+                continue
+            for st in ci.node.body:
+                if isinstance(st, ast.AnnAssign) and isinstance(st.target, ast.Name):
+                    el = annotation_element_classes(st.annotation)
+                    if el is not None:
+                        attr_elems.setdefault(st.target.id, []).append((ci.name, el))
+            init = ci.methods.get('__init__')
+            if init is not None:
+                for a in init.node.args.args[1:]:
+                    el = annotation_element_classes(a.annotation)
+                    if el is not None:
+                        attr_elems.setdefault(a.arg, []).append((ci.name, el))
+        n = 0
+        ctl = ast.parse('def f(self):\n    return set(self.subject_names)\n').body[0]
+        sites = []
+        for fid, fi in sorted(funcs.items()):
+            for c in ast.walk(fi.node):
+                arg = None
+                if isinstance(c, ast.Call) and isinstance(c.func, ast.Name) and c.func.id in ('set', 'frozenset') and len(c.args) == 1:
+                    arg = c.args[0]
+                elif isinstance(c, ast.SetComp) and isinstance(c.elt, ast.Name) and len(c.generators) == 1 and norm(c.generators[0].target) == c.elt.id:
+                    arg = c.generators[0].iter
+                elif isinstance(c, ast.DictComp) and isinstance(c.key, ast.Name) and len(c.generators) == 1 and norm(c.generators[0].target) == c.key.id:
+                    arg = c.generators[0].iter
+                if arg is not None:
+                    sites.append((fi, c, arg))
+        ctl_hit = [c for c in ast.walk(ctl) if isinstance(c, ast.Call) and isinstance(c.func, ast.Name) and c.func.id == 'set']
+        if len(ctl_hit) != 1 or 'subject_names' not in attr_elems:
+            col.unk('C08-partial', 'hashing:control', 'positive control of the hashing rule did not match')
+        for fi, c, arg in sites:
+            n += 1
+            cons = f'hashing:{fi.id}:{norm(c)[:50]}'
+            if not isinstance(arg, ast.Attribute):
+                col.ok('C08-partial', cons, 'the hashed elements are not taken from a typed model/blueprint collection', node=c, file=fi.file)
+                continue
+            decls = attr_elems.get(arg.attr, [])
+            culprits = sorted({cls for _, el in decls for cls in el if cls in unh})
+            if decls and all(any(cls in unh for cls in el) for _, el in decls):
+                col.bad('C08-partial', cons, f'{fi.qualname} hashes the elements of `{norm(arg)}` (`{norm(c)[:60]}`), and `{arg.attr}` is declared to hold '
+                        f'{culprits} - {unh[culprits[0]]}: TypeError ("unhashable type") escapes for every input that puts such an element there', node=c, file=fi.file)
+            elif culprits:
+                col.unk('C08-partial', cons, f'`{arg.attr}` holds unhashable {culprits} in some of the classes that declare it; which class `{norm(arg.value)}` is, is not resolved',
+                        node=c, file=fi.file)
+            else:
+                col.ok('C08-partial', cons, f'the elements of `{norm(arg)}` are hashable', node=c, file=fi.file)
+        if n == 0:
+            col.ok('C08-partial', 'hashing:none', f'no set/dict is built from a collection of model or blueprint objects in {len(funcs)} functions (control matched)',
+                   file='pydbml/parser/blueprints.py')
+    guarded(col, 'C08-partial', 'hashing', hashing)
 
     def lookup_tables():
         # shared with C01-default: boolean lookup table keys = literal spellings
